@@ -41,6 +41,7 @@ type LogSpec struct {
 
 	// Distributor / Proxy levels only.
 	State   int   // st* constant
+	Extra   int   // 0: none; k > 0: the entry carries a second state stanza for state k-1 (malformed list data)
 	HasIv   bool  // the log has a temporal interval
 	IvStart int64 // interval start, seconds relative to the certificate's NotAfter (<= 0 to contain it)
 	IvEnd   int64 // interval limit (exclusive), seconds relative to NotAfter (> 0 to contain it)
@@ -100,23 +101,51 @@ func logIndex(url string) int {
 
 const googleMail = "google-ct-logs@googlegroups.com"
 
-func stateObj(st int) *loglist3.LogStates {
+// stateObj builds the state object of a log entry: one stanza for State and, for the malformed entries
+// a log list may carry, a second one for Extra (Extra-1 is the state; 0: none).
+func stateObj(l LogSpec) *loglist3.LogStates {
 	ts := loglist3.LogState{Timestamp: time.Date(2021, 1, 1, 0, 0, 0, 0, time.UTC)}
-	switch st {
-	case stUsable:
-		return &loglist3.LogStates{Usable: &ts}
-	case stPending:
-		return &loglist3.LogStates{Pending: &ts}
-	case stQualified:
-		return &loglist3.LogStates{Qualified: &ts}
-	case stReadOnly:
-		return &loglist3.LogStates{ReadOnly: &loglist3.ReadOnlyLogState{LogState: ts}}
-	case stRetired:
-		return &loglist3.LogStates{Retired: &ts}
-	case stRejected:
-		return &loglist3.LogStates{Rejected: &ts}
+	var o *loglist3.LogStates
+	set := func(st int) {
+		if st < stUsable || st > stRejected {
+			return
+		}
+		if o == nil {
+			o = &loglist3.LogStates{}
+		}
+		switch st {
+		case stUsable:
+			o.Usable = &ts
+		case stPending:
+			o.Pending = &ts
+		case stQualified:
+			o.Qualified = &ts
+		case stReadOnly:
+			o.ReadOnly = &loglist3.ReadOnlyLogState{LogState: ts}
+		case stRetired:
+			o.Retired = &ts
+		case stRejected:
+			o.Rejected = &ts
+		}
 	}
-	return nil
+	set(l.State)
+	if l.Extra > 0 {
+		set(l.Extra - 1)
+	}
+	return o
+}
+
+// stateRank: the documented precedence by which an entry with several state stanzas resolves to one
+// status (pending before qualified before usable before readonly before retired before rejected).
+var stateRank = map[int]int{stPending: 0, stQualified: 1, stUsable: 2, stReadOnly: 3, stRetired: 4, stRejected: 5, stUndefined: 9}
+
+// effState is the status of the entry as the statement's "usable" reads it.
+func effState(l LogSpec) int {
+	st := l.State
+	if l.Extra > 0 && (st == stUndefined || stateRank[l.Extra-1] < stateRank[st]) {
+		st = l.Extra - 1
+	}
+	return st
 }
 
 // buildList turns the data into the repository's log-list structure. Only the logs whose index is in
@@ -132,7 +161,7 @@ func buildList(ls ListSpec, notAfter time.Time, present []bool) *loglist3.LogLis
 			if l.Op != op || (present != nil && !present[i]) {
 				continue
 			}
-			lg := &loglist3.Log{Description: fmt.Sprintf("log %d", i), URL: logURL(i), LogID: []byte{byte(i)}, Key: []byte{byte(i)}, MMD: 86400, State: stateObj(l.State)}
+			lg := &loglist3.Log{Description: fmt.Sprintf("log %d", i), URL: logURL(i), LogID: []byte{byte(i)}, Key: []byte{byte(i)}, MMD: 86400, State: stateObj(l)}
 			if l.HasIv {
 				lg.TemporalInterval = &loglist3.TemporalInterval{
 					StartInclusive: notAfter.Add(time.Duration(l.IvStart) * time.Second),
